@@ -104,6 +104,21 @@ KwDoc(k, role) ==
      THEN [header |-> "module", schema |-> "", module |-> kw, types |-> << [name |-> "user", ext |-> FALSE, rels |-> <<>>], [name |-> tname, ext |-> TRUE, rels |-> rels2] >>, conds |-> <<>>]
      ELSE [header |-> "model", schema |-> "1.1", module |-> "", types |-> << [name |-> "user", ext |-> FALSE, rels |-> <<>>], [name |-> tname, ext |-> FALSE, rels |-> rels2] >>, conds |-> <<>>]
 
+\* names in which a separator character glues two parts: the same text splits in two ways between a type and a relation name
+\* (type org + relation team.member / type org.team + relation member), in both orders, in a model and in a module file
+DotDoc(i) ==
+  LET sep == <<".", "/", "-", "_">>[(i % 4) + 1]
+      modular == (i \div 4) % 2 = 1
+      t1 == "org"
+      t2 == "org" \o sep \o "team"
+      r1 == "team" \o sep \o "member"
+      r2 == "member"
+      rel(n, rw, restr) == [name |-> n, rw |-> rw, restr |-> restr]
+      ta == [name |-> t1, ext |-> FALSE, rels |-> <<rel(r1, [k |-> "this"], <<Ty("user")>>), rel(r2, [k |-> "cu", rel |-> r1], <<>>)>>]
+      tb == [name |-> t2, ext |-> FALSE, rels |-> <<rel(r2, [k |-> "this"], <<Ty("user"), Us(t1, r1)>>), rel(r1, [k |-> "union", ch |-> <<[k |-> "this"], [k |-> "cu", rel |-> r2]>>], <<Ty(t1)>>)>>]
+  IN [header |-> IF modular THEN "module" ELSE "model", schema |-> IF modular THEN "" ELSE "1.1", module |-> IF modular THEN "m" ELSE "",
+      types |-> <<[name |-> "user", ext |-> FALSE, rels |-> <<>>]>> \o (IF (i \div 8) % 2 = 0 THEN <<ta, tb>> ELSE <<tb, ta>>), conds |-> <<>>]
+
 (***************************************************************************)
 (* C09: the catalogue of structural violations, D -> D' at a site          *)
 (***************************************************************************)
@@ -154,7 +169,9 @@ Violate(D, v, site, N) ==
             [viol |-> "extend in model", tag |-> <<"type", (site % Len(D.types)) + 1>>, doc |-> [D EXCEPT !.header = "model", !.schema = "1.1", !.types[(site % Len(D.types)) + 1].ext = TRUE]]
        [] v = 9 ->     \* the same type extended twice in one module file
             LET t == [name |-> N.doc, ext |-> TRUE, rels |-> <<[name |-> "zz", rw |-> [k |-> "cu", rel |-> N.a], restr |-> <<>>]>>]
-                base == [D EXCEPT !.header = "module", !.module = N.p, !.types[2].ext = TRUE]
+                base0 == [D EXCEPT !.header = "module", !.module = N.p, !.types[2].ext = TRUE]
+                \* every other site: the first extension is the very first type block of the file
+                base == IF (site \div 2) % 2 = 1 THEN [base0 EXCEPT !.types = <<base0.types[2], base0.types[1]>> \o SubSeq(base0.types, 3, Len(base0.types))] ELSE base0
                 at == (site % 2) + 3
             IN [viol |-> "type extended twice", tag |-> <<"type", at>>, doc |-> [base EXCEPT !.types = InsertAt(Append(@, [name |-> "other", ext |-> FALSE, rels |-> <<>>]), at, t)]]
        [] v = 10 ->    \* both headers
@@ -170,7 +187,9 @@ Violate(D, v, site, N) ==
                 tys == <<"list<list<string>>", "map<map<int>>", "list<map<bool>>", "map<list<int>>">>
             IN [viol |-> "nested container type", tag |-> <<>>,
                 doc |-> [D EXCEPT !.conds = Append(@, [c EXCEPT !.name = "cx", !.params[(site % 3) + 1].ty = tys[((site \div 3) % 4) + 1]])]]
-NumViolations == 13
+       [] v = 14 ->    \* neither header and nothing else: an empty document, or one of blank and comment lines only (the layout supplies them)
+            [viol |-> "empty document", tag |-> <<>>, doc |-> [D EXCEPT !.header = "none", !.types = <<>>, !.conds = <<>>]]
+NumViolations == 14
 
 (***************************************************************************)
 (* jobs                                                                    *)
@@ -221,7 +240,7 @@ Load == job = <<>> /\ job' = JobAt(ji) /\ UNCHANGED ji
 \* two steps: the rendering is kept in the state so that it is evaluated once (TLC re-evaluates LET definitions at every
 \* reference from inside a constructor), then printed
 Layout == /\ job # <<>> /\ "R" \notin DOMAIN job
-          /\ LET D0 == IF "kw" \in DOMAIN job THEN KwDoc(job.kw[1], job.kw[2]) ELSE IF "wide" \in DOMAIN job THEN WideDoc ELSE DocAt(job.doc)
+          /\ LET D0 == IF "kw" \in DOMAIN job THEN KwDoc(job.kw[1], job.kw[2]) ELSE IF "wide" \in DOMAIN job THEN WideDoc ELSE IF "dot" \in DOMAIN job THEN DotDoc(job.dot) ELSE DocAt(job.doc)
                  N == Names(job.doc % 3)
                  V == IF job.viol = 0 THEN [viol |-> "", tag |-> <<>>, doc |-> D0] ELSE Violate(D0, job.viol, job.vsite, N)
                  ts == IF "mut" \in DOMAIN job THEN MutateAll(Tokens(V.doc), job.mut, 1) ELSE Tokens(V.doc)
